@@ -294,3 +294,13 @@ func lemmaRequestDeterministicType1(pk *oprf.PublicKey, challenge, nonce, keyID,
 	Vassume(e1 == nil && e2 == nil)
 	Vassert(string(s1.Request().Marshal()) == string(s2.Request().Marshal()))
 }
+
+// Marshal respects the frame assumed for tokens.TokenRequest.Marshal (used by the generic batch): it writes
+// the receiver's own object only.
+//
+//@ lemma props C04
+//@ assigns object(tokens.TokenRequest(r))
+func lemmaMarshalRefinesTokenRequest(r *BasicPrivateTokenRequest) {
+	Vassume(r != nil && (r.raw == nil || string(r.raw) == specEncT1Req(r.TokenKeyID, string(r.BlindedReq))))
+	r.Marshal()
+}
